@@ -460,7 +460,7 @@ func (self *FieldMask) Exist() bool {
 }
 
 func (self *FieldMask) hasChild() bool {
-	return self.typ != 0 && (self.all != nil || self.fdMask != nil || self.intMask != nil || self.strMask != nil)
+	return self != nil && self.typ != 0 && (self.all != nil || self.fdMask != nil || self.intMask != nil || self.strMask != nil)
 }
 
 func (self *FieldMask) ret(fm *FieldMask) (*FieldMask, bool) {
@@ -480,7 +480,7 @@ func (self *FieldMask) Field(id int16) (*FieldMask, bool) {
 		return nil, true
 	}
 	if self.isAll {
-		return self.all, !self.isBlack || self.hasChild()
+		return self.all, !self.isBlack || self.all.hasChild()
 	}
 	fm := self.fdMask.Get(fieldID(id))
 	return self.ret(fm)
@@ -492,7 +492,7 @@ func (self *FieldMask) Int(id int) (*FieldMask, bool) {
 		return nil, true
 	}
 	if self.isAll {
-		return self.all, !self.isBlack || self.hasChild()
+		return self.all, !self.isBlack || self.all.hasChild()
 	}
 	fm := self.intMask.Get(id)
 	return self.ret(fm)
@@ -504,7 +504,7 @@ func (self *FieldMask) Str(id string) (*FieldMask, bool) {
 		return nil, true
 	}
 	if self.isAll {
-		return self.all, !self.isBlack || self.hasChild()
+		return self.all, !self.isBlack || self.all.hasChild()
 	}
 	fm := self.strMask.Get(id)
 	return self.ret(fm)
